@@ -37,7 +37,7 @@ import (
 	"github.com/dolthub/dolt/go/zzverif/vsql"
 )
 
-const c16Rule = "case = value kind (TEXT/BLOB/JSON) + 2-5 logical values (sizes 0, 1, around the 20-byte address size, every size in a window around the 2 KiB row target, 4 KiB / 16 KiB / 64 KiB +-1, up to 2 MiB quick / 16 MiB thorough; contents: random bytes, one repeated byte, multi-byte UTF-8, quotes/backslashes/NUL, JSON of random shape) + the way each value is produced (parameter, INSERT..SELECT, UPDATE from another column, CONCAT/REPEAT, JSON_OBJECT/JSON_SET, ALTER TABLE add/drop wide column) into two tables whose neighbouring column widths force different storage forms. Non-trivial = at least one logical value is stored inline in one table and out of band in the other (read from the row tuples in process) and the cross-table comparisons ran."
+const c16Rule = "case = value kind (TEXT/BLOB/JSON) + 2-5 logical values (sizes 0, 1, around the 20-byte address size, every size in a window around the 2 KiB row target, 4 KiB / 16 KiB / 64 KiB +-1, up to 2 MiB quick / 8 MiB thorough; contents: random bytes, one repeated byte, multi-byte UTF-8, quotes/backslashes/NUL, JSON of random shape) + the way each value is produced (parameter, INSERT..SELECT, UPDATE from another column, CONCAT/REPEAT, JSON_OBJECT/JSON_SET, ALTER TABLE add/drop wide column) into two tables whose neighbouring column widths force different storage forms. Non-trivial = at least one logical value is stored inline in one table and out of band in the other (read from the row tuples in process) and the cross-table comparisons ran."
 
 var c16Assumptions = []string{
 	"the client sends parameters interpolated as escaped literals (go-sql-driver InterpolateParams); binary values travel as _binary'...' literals",
@@ -73,7 +73,10 @@ func c16GenSize(rt *rapid.T, maxSize int, label string) int {
 	case 8:
 		return rapid.SampledFrom([]int{65536, 65537, 100000, 262144, 262145}).Draw(rt, label+".mid")
 	default:
-		return rapid.SampledFrom([]int{1 << 20, (1 << 20) + 1, maxSize - 1, maxSize}).Draw(rt, label+".big")
+		if rapid.Bool().Draw(rt, label+".isbig") {
+			return rapid.SampledFrom([]int{1 << 20, (1 << 20) + 1, maxSize - 1, maxSize}).Draw(rt, label+".big")
+		}
+		return rapid.IntRange(2030, 2050).Draw(rt, label+".edge")
 	}
 }
 
@@ -576,9 +579,9 @@ func TestVerif_C16_sql(t *testing.T) {
 			t.Errorf("%s", msg)
 		}
 	})
-	maxSize := vh.N(2<<20, 16<<20)
+	maxSize := vh.N(2<<20, 8<<20)
 	filler := strings.Repeat("f", 2040)
-	vh.Check(t, "sql", 70, 250, func(rt *rapid.T) {
+	vh.Check(t, "sql", 30, 100, func(rt *rapid.T) {
 		db := srv.NewDBName()
 		admin.MustExec(rt, "CREATE DATABASE "+db)
 		defer admin.Exec("DROP DATABASE " + db)
